@@ -326,6 +326,17 @@ pub proof fn lemma_C20_c_counts_function(c1: Map<CKey, usize>, c2: Map<CKey, usi
     }
 }
 
+//@tags C20
+/// C20 known defect, stated positively: the listing is decided per (file, name).  As soon as one usage is counted
+/// for (f, n), NO definition of n in f is listed - also a shadowed earlier definition to which nothing resolves.
+pub proof fn lemma_C20_shared_key_hides_shadowed(r: Seq<(PathBuf, String)>, defs: Map<Seq<char>, Seq<DefV>>, uses: Map<PV, Seq<UseV>>,
+        provf: spec_fn(Seq<char>) -> spec_fn(PV) -> bool, f: PV, n: Seq<char>)
+    requires unused_post(r, defs, uses, provf), total_hits(defs, uses, provf, (f, n)) > 0
+    ensures !keys_of(r).contains((f, n))
+{
+    lemma_C20_a_listed_iff(r, defs, uses, provf, f, n);
+}
+
 // ---- canaries: must FAIL -------------------------------------------------------------------------
 /// KNOWN DEFECT (C20/C04): counts are shared per (file, name).  A definition shadowed by a later same-named
 /// definition in the same file has no references (op_refs is empty) yet is NOT listed as unused when the
